@@ -74,6 +74,8 @@ def decAtom (j : Json) : R Atom := do
   | "equalsToProperty" => return .propCmp .eq p (← decPath (← fld j "other"))
   | "disjointWithProperty" => return .propCmp .ne p (← decPath (← fld j "other"))
   | "datatype" => return .datatype p (← fldStr j "dt")
+  | "pattern" => return .pattern p (fldBoolD j "anchorStart" false) (fldBoolD j "anchorEnd" false) (← fldStr j "lit")
+  | "uniqueValues" => return .uniqueValues p (fldBoolD j "uarg" true)
   | k => throw s!"bad atom kind {k}"
 
 partial def decRule (j : Json) : R Dnf.Rule := do
